@@ -36,6 +36,7 @@ type ProgSpec struct {
 	MdatFirst  bool  // mdat before moov
 	MdatLarge  bool  // 64-bit mdat header
 	LeadIn     int   // unused bytes at the start of the mdat payload
+	Free64     bool  // a free box written with a 64-bit (largesize) header directly after ftyp
 }
 
 // ProgFile is the result.
@@ -125,6 +126,10 @@ func BuildProg(spec *ProgSpec) (*ProgFile, error) {
 	}
 	// moov with placeholder offsets to learn its size
 	ftyp := enc(mp4.NewFtyp("isom", 0x200, []string{"isom", "iso2", "avc1", "mp41"}))
+	if spec.Free64 {
+		// size field 1, type, 64-bit size 20, 4 payload bytes: legal, and 8 bytes longer than the 32-bit form
+		ftyp = append(ftyp, 0, 0, 0, 1, 'f', 'r', 'e', 'e', 0, 0, 0, 0, 0, 0, 0, 20, 0xf1, 0xf2, 0xf3, 0xf4)
+	}
 	moov := buildMoov(spec)
 	hdr := 8
 	if spec.MdatLarge {
